@@ -1,0 +1,53 @@
+//go:build verif
+
+package db
+
+import (
+	"errors"
+	"io"
+
+	"github.com/containerd/stargz-snapshotter/estargz"
+)
+
+// Exports for the C04 harness of /verif: chunk lookup and the entry selection of fileReader.ReadAt over an arbitrary
+// chunk table.
+
+type verifRecorderC04 struct{ off int64 }
+
+func (r *verifRecorderC04) ReadAt(p []byte, off int64) (int, error) {
+	if r.off < 0 {
+		r.off = off
+	}
+	return 0, errors.New("verif: recorded")
+}
+
+func verifEntsC04(chunks [][2]int64) []chunkEntry {
+	ents := make([]chunkEntry, len(chunks))
+	for i, c := range chunks {
+		ents[i] = chunkEntry{offset: 1000 + int64(i), chunkOffset: c[0], chunkSize: c[1], innerOffset: -1}
+	}
+	return ents
+}
+
+// VerifChunkEntryForOffsetC04 runs file.ChunkEntryForOffset over the chunk table chunks ({chunkOffset, chunkSize}).
+func VerifChunkEntryForOffsetC04(chunks [][2]int64, off int64) (chunkOffset, chunkSize int64, ok bool) {
+	chunkOffset, chunkSize, _, ok = (&file{ents: verifEntsC04(chunks)}).ChunkEntryForOffset(off)
+	return
+}
+
+// VerifFileReaderSelectC04 runs fileReader.ReadAt and reports the index of the entry whose compressed offset it went to read
+// (-1: it returned before reading).
+func VerifFileReaderSelectC04(chunks [][2]int64, size, off int64) (int, error) {
+	rec := &verifRecorderC04{off: -1}
+	fr := &fileReader{
+		r:          &reader{sr: io.NewSectionReader(rec, 0, 1<<40), decompressor: new(estargz.GzipDecompressor)},
+		size:       size,
+		ents:       verifEntsC04(chunks),
+		nextOffset: 1 << 30,
+	}
+	_, err := fr.ReadAt(make([]byte, 1), off)
+	if rec.off < 0 {
+		return -1, err
+	}
+	return int(rec.off - 1000), err
+}
